@@ -163,9 +163,14 @@ Fixpoint memchr_loop (buf : list Z) (c : Z) (i : Z) (left : Z) : res (option Z) 
 Definition ct_memchr (buf : list Z) (ch n : Z) : res (option Z) := memchr_loop buf (wrapu 8 ch) 0 n.
 
 (** * _cmath sign and classification fallbacks *)
-(* signbit_fallback: (bit_cast<uintN_t>(arg) >> (N-1)) != 0 for the 32/64-bit interchange formats *)
+(* signbit_fallback: (bit_cast<uintN_t>(arg) >> (N-1)) != 0 when sizeof(T) is 4 or 8 (the
+   interchange formats binary32/binary64); otherwise (x87 long double)
+   __builtin_copysignl(1.0L, arg) < 0.0L, the builtin being modelled by its specification *)
+Definition builtin_copysign (x y : fval) : fval := with_sign (fsign y) x.
 Definition ct_signbit (f : fmt) (x : fval) : bool :=
-  negb (Z.shiftr (encode f x) (ewidth f + mwidth f) =? 0).
+  let total := ewidth f + mwidth f + 1 in
+  if (total =? 32) || (total =? 64) then negb (Z.shiftr (encode f x) (total - 1) =? 0)
+  else flt (builtin_copysign fone x) (FZero false).
 
 (* copysign_fallback: if (signbit(x) != signbit(y)) return -x; return x; *)
 Definition ct_copysign (f : fmt) (x y : fval) : fval :=
